@@ -59,9 +59,10 @@ def install(res):
             return False
         return True
 
-    def check_key_helper(key, allow_unicode_keys, key_prefix=b""):
+    def check_key_helper(key, allow_unicode_keys, key_prefix=b"", *extra, **kwextra):
+        # extra parameters a refactor may add to the helper are passed through untouched
         try:
-            return orig(key, allow_unicode_keys, key_prefix)
+            return orig(key, allow_unicode_keys, key_prefix, *extra, **kwextra)
         except BaseException as e:
             # raise path: must be MemcacheIllegalInputError and the key must be illegal
             res.count("raise_path_evaluations")
@@ -245,6 +246,29 @@ def shard(tier, seed, idx, n):
                     pass
 
     ign_clients = {}
+    enc_clients = {}
+
+    def enc_client(uni, prefix):
+        k = (uni, prefix)
+        if k not in enc_clients:
+            if len(enc_clients) > 64:
+                enc_clients.clear()
+            enc_clients[k] = base.Client(("mc1", 11211), socket_module=net, allow_unicode_keys=uni, key_prefix=prefix,
+                                         encoding="utf8")
+        return enc_clients[k]
+
+    down_clients = {}
+
+    def down_client(uni, prefix):
+        """a HashClient with no server in rotation"""
+        k = (uni, prefix)
+        if k not in down_clients:
+            if len(down_clients) > 64:
+                down_clients.clear()
+            # no server in rotation at all (the state reached once every node has been evicted)
+            hc = hashmod.HashClient([], socket_module=net, allow_unicode_keys=uni, key_prefix=prefix)
+            down_clients[k] = hc
+        return down_clients[k]
 
     def ign_client(uni, prefix):
         k = (uni, prefix)
@@ -296,6 +320,22 @@ def shard(tier, seed, idx, n):
                 res.count("wire_keys_checked")
                 return cmds[0].keys[0]
             judge_direct(res, st, base, "Client(ignore_exc).get", iget, key, uni, prefix)
+            ec = enc_client(uni, prefix)
+            judge_direct(res, st, base, "Client(encoding=utf8).check_key", lambda: ec.check_key(key, prefix), key, uni, prefix)
+            if i % 2 == 0 or not legal:
+                dc = down_client(uni, prefix)
+
+                def dget():
+                    from pymemcache.exceptions import MemcacheError, MemcacheIllegalInputError
+                    try:
+                        dc.get(key)
+                    except MemcacheIllegalInputError:
+                        raise
+                    except MemcacheError:
+                        # not rejected as an illegal key: 'all servers down' is the expected outcome for a legal one
+                        return wire if wire is not None else b"<all-servers-down error instead of an input error>"
+                    return b"<no error although no server is in rotation>"
+                judge_direct(res, st, base, "HashClient(no server left).get", dget, key, uni, prefix)
             if srv.malformed[m1:]:
                 ign_clients.pop((uni, prefix), None)
             if srv.malformed[m0:]:
